@@ -229,4 +229,67 @@ def ofQuantizer (q : QKerasQ) : Option QRec :=
                               | none => none }
   | _ => none
 
+/-! ### histories: `convert_qkeras_quantizer` on an impl object that was converted before
+
+`QuantizerFactory.make_quantizer` builds a fresh impl object per call, but the impl classes are public and
+`convert_qkeras_quantizer` can be called again on the same object (a configuration sweep re-using one
+operand object).  `convertOnto old q` is the method body of the class the factory pairs with `q.cls`,
+assignment by assignment: fields the method does not assign keep the value they had. -/
+
+/-- state of a freshly constructed impl object of the class paired with `cls` (`__init__`) -/
+def freshOf (cls : String) : Option QRec :=
+  match cls with
+  | "quantized_bits" => some tQuantizedBits
+  | "quantized_tanh" => some { tQuantizedBits with name := .quantized_tanh }
+  | "quantized_ulaw" => some { tQuantizedBits with name := .quantized_ulaw }
+  | "binary" => some (tBinary false)
+  | "stochastic_binary" => some { tBinary false with name := .stochastic_binary }
+  | "bernoulli" => some { tBinary true with name := .bernoulli }
+  | "quantized_relu" =>
+    some { mode := 0, name := .quantized_relu, bits := -1, intBits := -1, signed := false,
+           isFloat := false, isPo2 := false, maxValPo2 := none, use01 := false }
+  | "ternary" => some tTernary
+  | "stochastic_ternary" => some { tTernary with name := .stochastic_ternary }
+  | "quantized_po2" => some tPowerOfTwo
+  | "quantized_relu_po2" => some { tPowerOfTwo with name := .quantized_relu_po2, signed := false }
+  | _ => none
+
+/-- Python truthiness of `quantizer.max_value` (`None` and `0` are falsy) -/
+def po2Cap (m : Option Rat) : Option Rat :=
+  match m with
+  | some m => if m = 0 then none else some m
+  | none => none
+
+/-- `old.convert_qkeras_quantizer(q)`; `old` is an object of the class paired with `q.cls`.
+    `QuantizedRelu` only ever SETS `is_signed` (`if negative_slope != 0: self.is_signed = 1`). -/
+def convertOnto (old : QRec) (q : QKerasQ) : Option QRec :=
+  match q.cls with
+  | "quantized_bits" =>
+    some { old with mode := 0, bits := q.bits, intBits := q.integer, signed := q.keepNegative }
+  | "quantized_tanh" => some { old with mode := 0, bits := q.bits, intBits := 0, signed := true }
+  | "quantized_ulaw" =>
+    some { old with mode := 0, bits := q.bits, intBits := q.integer, signed := true }
+  | "binary" =>
+    some { old with mode := if q.use01 then 4 else 3, signed := !q.use01, use01 := q.use01 }
+  | "stochastic_binary" => some old
+  | "bernoulli" => some old
+  | "quantized_relu" =>
+    some { old with mode := if q.bits = 1 ∧ q.integer = 1 then 4 else 0, bits := q.bits,
+                    intBits := q.integer,
+                    signed := if q.negSlopeNonzero then true else old.signed }
+  | "ternary" => some old
+  | "stochastic_ternary" => some old
+  | "quantized_po2" =>
+    some { old with signed := true, name := .quantized_po2, maxValPo2 := po2Cap q.maxValue,
+                    bits := q.bits, intBits := q.bits }
+  | "quantized_relu_po2" =>
+    some { old with bits := q.bits, intBits := q.bits, maxValPo2 := po2Cap q.maxValue }
+  | _ => none
+
+/-- a whole history on one object of the class paired with `cls`: construct, then convert in order -/
+def convertHistory (cls : String) (qs : List QKerasQ) : Option QRec :=
+  qs.foldl (fun acc q => match acc with
+    | some r => if q.cls = cls then convertOnto r q else none
+    | none => none) (freshOf cls)
+
 end QKV
